@@ -29,6 +29,8 @@ def main():
         for k, (y, x, r, c) in enumerate(req['cases']):
             Y = np.asarray(y, dtype=np.int32)
             X = np.asarray(x, dtype=np.int32)
+            if y == x and k % 2 == 0:
+                X = Y          # a vector scored against itself the natural way: est(v, v), one array object for both arguments
             if poison:
                 pv = poison[k % len(poison)]
                 for sz in {int(float(np.float32(r)) * len(x)), len(x), max(1, len(x) // 2)}:
